@@ -67,7 +67,7 @@ func (f *ReadLine) Call(s *slip.Scope, args slip.List, depth int) slip.Object {
 	}
 	rr, ok := is.(io.RuneReader)
 	if !ok {
-		slip.TypePanic(s, depth, "stream", args[0], "input-stream")
+		slip.TypePanic(s, depth, "stream", is, "input-stream")
 	}
 	// Not at all efficient but it's the best that can be done with a buffered
 	// input.
